@@ -149,6 +149,37 @@ def check_cmp_laws(c, u, names, m, triples=True):
                             dict(kind='cmp3', x=a, y=b, z=z))
 
 
+# ----------------------------------------------------------------------------------------------------------------- the same rules at depth
+WRAPPERS = {'tuple': lambda v: (v,), 'list': lambda v: [v], 'pair': lambda v: ('k', v), 'dict': lambda v: {'k': v}, 'dict-in-list': lambda v: [{'k': v}],
+            'list-in-dict': lambda v: {'k': [v]}, 'dict-in-dict': lambda v: {'k': {'j': v}}, 'tuple-in-dict': lambda v: {'k': (0, v)}}
+
+
+def check_wrapped(c, only=None):
+    """"tuples / lists / dicts of these": the scalar rules (numerically equal ints and floats compare 0, equal values compare 0, NaN above every
+    finite number, native order inside numbers / strings / datetimes) hold for the one differing slot of two containers of the same shape,
+    whatever the container and however deep the slot"""
+    from pyg_base import cmp
+    u = universe()
+    jobs = [(a, b, 0, 'zero') for a, b in NUM_EQUAL + SAME_VALUE if not isinstance(u[a], (dict, list, tuple))]
+    jobs += [('date1', 'dt1', 0, 'zero')]
+    jobs += [(a, b, 1, 'nan') for a in NANS for b in FINITE]
+    jobs += [(a, b, sgn(u[a], u[b]), 'native') for grp in NATIVE for a in grp for b in grp]
+    for wname, w in WRAPPERS.items():
+        for a, b, want, what in jobs:
+            if only is not None and (wname, a, b) != only:
+                continue
+            for x, y, sign in ((a, b, 1), (b, a, -1)):
+                call = dict(kind='cmp_wrapped', w=wname, x=a, y=b)
+                c.case(('cmp_wrapped', wname, x, y), nontrivial=True, sample=dict(call, want=want) if (wname, a, b) == ('dict', 'i1', 'np_i1') else None)
+                try:
+                    r = cmp(w(u[x]), w(u[y]))
+                except Exception as e:      # noqa
+                    c.check(False, 'C07:cmp:never-raises:at-depth', 'cmp(%r, %r) raised %r' % (w(u[x]), w(u[y]), e), call)
+                    continue
+                c.check(r == sign * want, 'C07:cmp:at-depth:%s:%s' % (what, 'in-dict' if 'dict' in wname else 'in-sequence'),
+                        'cmp(%r, %r) = %r, but the slots compare %r' % (w(u[x]), w(u[y]), r, sign * want), call)
+
+
 # ----------------------------------------------------------------------------------------------------------------- dicts: insertion order
 def dict_order_universe():
     """name -> value: for every key set (two string keys, three string keys, mixed-type keys) every assignment of values from a small pool
@@ -612,7 +643,8 @@ def run(tier, seed):
                   rule='cmp laws: all %d^2 pairs and %d^3 triples of a fixed universe (None, bools, ints, floats, three NaN objects of different identity, +-inf, '
                        'strings, datetimes/date, numpy int/float/bool/datetime64 scalars, empty tuple/list and two distinct empty dicts, nested tuples/lists/dicts, '
                        'equal copies, a dict with mixed-type keys): range, never raises, antisymmetry, transitivity, int==float, NaN above finite, agreement with the '
-                       'native order inside numbers/strings/datetimes. Dicts and insertion order: all %d^2 pairs and %d^3 triples of a second universe holding, for the key sets '
+                       'native order inside numbers/strings/datetimes; the zero / NaN / native-order rules again for the one differing slot of two containers of the same shape '
+                       '(1-tuple, list, pair, dict value, dict in list, list in dict, dict in dict, tuple in dict). Dicts and insertion order: all %d^2 pairs and %d^3 triples of a second universe holding, for the key sets '
                        '{a,b} (values 1,2,x), {a,b,c} (values 1,2) and {1,a} (values 1,2), every assignment of values in every insertion order (so crossing values such as '
                        '{a:1,b:2} / {b:1,a:2} meet in both orders), the same dicts inside tuples, lists and dict values, and neighbours with other key sets: range, never '
                        'raises, antisymmetry, transitivity, cmp == 0 whenever the two values are ==. Equal-length sequences: all pairs and triples of the 64 2-tuples over '
@@ -632,6 +664,7 @@ def run(tier, seed):
     m = cmp_matrix(c, u, names)
     check_cmp_laws(c, u, names, m)
     check_dict_order(c)
+    check_wrapped(c)
     for seq_names in seq_universes():
         check_seq_laws(c, u, seq_names)
     run_sort(c, u, rng, quick)
@@ -685,6 +718,8 @@ def replay(call):
         finally:
             for k, v in laws.violations.items():
                 c.violations.setdefault(k, v)
+    elif kind == 'cmp_wrapped':
+        check_wrapped(c, only=(call['w'], call['x'], call['y']))
     elif kind == 'cmp_order':
         check_dict_order(c, names=list(dict.fromkeys(call['names'])))
     elif kind == 'cmp_seq':
